@@ -848,6 +848,7 @@ func vGenTarget(g *vgen, ids []string) (interface{}, bool) {
 
 type vrouteObs struct {
 	Ids       []string                 `json:"ids"`
+	Broken    []string                 `json:"broken,omitempty"` // members of Ids whose specification cannot be loaded
 	Root      interface{}              `json:"root"`
 	Logs      map[string][]interface{} `json:"logs"`
 	Walked    []string                 `json:"walked_root"`
@@ -881,7 +882,7 @@ func (o *vrouteObs) coq(mdb bool) string {
 		}
 		return vList(items)
 	}
-	return fmt.Sprintf("(mk_routecase %s %s %s %s %s %s %s %s)", vBool(mdb), vStrings(o.Ids), vJSON(o.Root),
+	return fmt.Sprintf("(mk_routecase %s %s %s %s %s %s %s %s %s)", vBool(mdb), vStrings(o.Ids), vStrings(o.Broken), vJSON(o.Root),
 		vList(logs), vStrings(o.Walked), js(o.Processed), js(o.Reported), vBool(o.Quiet))
 }
 
@@ -948,11 +949,21 @@ func runRoute(t *testing.T, out *vout, ids []string, root map[string]interface{}
 				t.Fatal(err)
 			}
 		}
-		if err := v.s.AddMachine(v.ctx, "rec", id, "", nil); err != nil {
+		specName := "rec"
+		if strings.HasPrefix(id, "zz-broken") {
+			specName = "ghost" // no such specification: every Process call that meets this machine fails
+		}
+		if err := v.s.AddMachine(v.ctx, specName, id, "", nil); err != nil {
 			t.Fatal(err)
 		}
 	}
 	obs := &vrouteObs{Ids: ids, Root: root, Logs: map[string][]interface{}{}}
+	for _, id := range ids {
+		if strings.HasPrefix(id, "zz-broken") {
+			obs.Broken = append(obs.Broken, id)
+			out.count("crew:with-broken-machine")
+		}
+	}
 	msg, _ := vCanon(root)
 	func() {
 		defer func() {
@@ -1046,6 +1057,10 @@ func vGenRouteCase(g *vgen, mg *vmsgGen) ([]string, map[string]interface{}) {
 		}
 	}
 	ids = ids[:g.intn(len(ids)+1)]
+	if len(ids) > 0 && g.chance(0.15) {
+		// a machine whose specification cannot be loaded sits in the crew: messages routed to the others still arrive
+		ids = append(ids, "zz-broken")
+	}
 	sort.Strings(ids)
 	root := mg.tree(1+g.intn(2), 2, func(int) (interface{}, bool) { return vGenTarget(g, ids) })
 	return ids, root
